@@ -28,6 +28,10 @@ var c01Sinks = []c01Sink{
 	{"attr-bound", func(pre, post string) string { return `<p :title="x">t</p>` }, true},
 	{"attr-bound-interp", func(pre, post string) string { return `<p :title="` + pre + `{{ x }}` + post + `">t</p>` }, true},
 	{"class-bound", func(pre, post string) string { return `<p class="c" :class="x">t</p>` }, true},
+	// a bound value MERGED into a static attribute that itself contains a mustache (class and style are merged, not replaced)
+	{"class-interp-bound", func(pre, post string) string { return `<p class="c {{ kk }}" :class="x">t</p>` }, true},
+	{"style-interp-bound", func(pre, post string) string { return `<p style="color: {{ kk }}" :style="x">t</p>` }, true},
+	{"class-interp-bound-object", func(pre, post string) string { return `<p class="{{ kk }}" :class="{on: x}" :title="x">t</p>` }, true},
 	// text sinks inside elements whose content an HTML parser reads as raw text or RCDATA: only script and style bodies are exempt from the property
 	{"text-noscript", func(pre, post string) string { return "<p>a</p><noscript>" + pre + "{{ x }}" + post + "</noscript>" }, false},
 	{"text-iframe", func(pre, post string) string { return "<p>a</p><iframe>" + pre + "{{ x }}" + post + "</iframe>" }, false},
@@ -55,7 +59,7 @@ type c01Construct struct {
 }
 
 func c01Data(v any) map[string]any {
-	return map[string]any{"x": v, "secret": c01Canary, "t": true, "items": []any{v}, "rows": []any{map[string]any{"x": v}}}
+	return map[string]any{"x": v, "kk": "kv", "secret": c01Canary, "t": true, "items": []any{v}, "rows": []any{map[string]any{"x": v}}}
 }
 
 var c01Constructs = []c01Construct{
@@ -225,7 +229,7 @@ func runC01(r *Run, replay *Case) {
 			nbs = c01AttrNbs
 		}
 		for _, nb := range nbs {
-			if (s.name == "vtext" || s.name == "attr-bound" || s.name == "class-bound") && nb.name != "plain" {
+			if (s.name == "vtext" || s.name == "attr-bound" || s.name == "class-bound" || strings.HasSuffix(s.name, "-interp-bound") || s.name == "class-interp-bound-object") && nb.name != "plain" {
 				continue // these sinks have no static neighbours
 			}
 			hostSink := strings.HasPrefix(s.name, "text-") || s.name == "attr-in-noscript"
